@@ -128,6 +128,14 @@ def load_or_skip(text: str):
     from .runner import Inconclusive
 
     try:
-        return B.load(text)
+        ode = B.load(text)
     except Exception as ex:
         raise Inconclusive(f"load-rejected:{type(ex).__name__}")
+    import sympy as sp
+
+    for a in ode.intermediates + ode.state_derivatives:
+        if a.expr.has(sp.I, sp.zoo, sp.nan):
+            # e.g. Conditional(c, 0, -1)**0.5: sympy folds the branch to the imaginary unit. The text
+            # defines a complex number somewhere, which is outside the (real valued) language
+            raise Inconclusive("complex-or-infinite-constant-in-model")
+    return ode
